@@ -92,6 +92,26 @@ def run(tier):
     vf.run_harness(binpath, ["buf2", "gen", "--seed", vf.seed(), "--tier", tier], stdout_path=rnd)
     vf.exec_and_validate(chk, binpath, "buf2", "TV_Buf2", rnd, jvms=8)
     chk.cov["distinct_nontrivial"] = chk.cov["traces_validated_against_impl"]
+    # 4. growth beyond the statement: Rect as a set of points (intersect, contains, is_empty,
+    #    extents, conversions); every pair of rects TLC explores is replayed; rejections are notes
+    rcons = {"Export": "TRUE", "Wide": "TRUE" if tier == "thorough" else "FALSE"}
+    rcfg = vf.write_cfg(os.path.join(d, "MC_Rect.cfg"), rcons, invariants=["Laws", "ExportInv"])
+    rr = vf.tlc("MC_Rect", rcfg, workers=8, gc="parallel", heap="4g")
+    chk.add_mc("MC_Rect (extra coverage)", rr, rcons)
+    rect_cases = os.path.join(d, "rect_cases.ndjson")
+    nr = 0
+    with open(rect_cases, "w") as f:
+        for ln in rr.prints:
+            t = vf.parse_print(ln)
+            if t and t[0] == "REPLAY":
+                c = json.loads(t[1])
+                c["k"] = "r%d" % nr
+                f.write(json.dumps(c, separators=(",", ":")) + "\n")
+                nr += 1
+    before = (chk.cov["traces_validated_against_impl"], chk.cov["evaluations"])
+    nrec, nev, badr = vf.exec_and_validate(chk, binpath, "rect", "TV_Rect", rect_cases, jvms=10, what="rect call", as_notes=True)
+    chk.cov["traces_validated_against_impl"], chk.cov["evaluations"] = before
+    chk.cov["extra_coverage"] = {"rect_pairs_replayed": nr, "rect_calls_validated": nrec, "rect_calls_rejected": len(badr)}
     chk.cov["trusted_base"] = ["TLC + CommunityModules (Json, IOUtils, SequencesExt)",
                                "harness/src/buf2.rs recorder (records results, never judges)"]
     chk.assumptions = ["element type i32 only", "empty (zero-width/height) views may panic on construction, "
